@@ -415,8 +415,17 @@ check_for_constructor(CPPScope *current_scope, CPPScope *global_scope) {
           flags |= CPPFunctionType::F_constructor;
         }
 
+        // A copy or move constructor (or assignment operator) takes a
+        // reference to the class.  A constructor may take more parameters
+        // after that, provided that they all have default arguments.
         CPPParameterList *params = func->_parameters;
-        if (params->_parameters.size() == 1 && !params->_includes_ellipsis) {
+        bool one_required_param = (params->_parameters.size() == 1);
+        if ((flags & CPPFunctionType::F_constructor) != 0 &&
+            params->_parameters.size() > 1 &&
+            params->_parameters[1]->_initializer != nullptr) {
+          one_required_param = true;
+        }
+        if (one_required_param && !params->_includes_ellipsis) {
           CPPType *param_type = params->_parameters[0]->_type;
           CPPReferenceType *ref_type = param_type->as_reference_type();
 
